@@ -207,10 +207,10 @@ Lemma diff_filter attrs fg : keys_unique attrs = true -> diff_attrs attrs fg [] 
 Proof. intros U. rewrite (diff_attrs_acc attrs fg [] U); [reflexivity|intros; reflexivity]. Qed.
 
 Lemma back_form g m d : mdict_ok g = true -> mdict_ok m = true ->
-  attrs_back d (ocol k_seqid g) (ocol k_source g) (oscore m) (ophase m) =
-  d ++ opt_entry k_seqid (aget k_seqid g) ++ opt_entry k_source (aget k_source g) ++ opt_entry k_score (aget k_score m) ++ opt_entry k_phase (aget k_phase m).
+  attrs_back d (ocol k_seqid g) (ocol k_source m) (oscore m) (ophase m) =
+  d ++ opt_entry k_seqid (aget k_seqid g) ++ opt_entry k_source (aget k_source m) ++ opt_entry k_score (aget k_score m) ++ opt_entry k_phase (aget k_phase m).
 Proof.
-  intros Mg Mm. destruct (m_seqid g Mg) as [E1 _]. destruct (m_source g Mg) as [E2 _]. destruct (m_score m Mm) as [E3 _]. pose proof (m_phase m Mm) as E4.
+  intros Mg Mm. destruct (m_seqid g Mg) as [E1 _]. destruct (m_source m Mm) as [E2 _]. destruct (m_score m Mm) as [E3 _]. pose proof (m_phase m Mm) as E4.
   rewrite attrs_back_eq, <- E1, <- E2, <- E3, <- E4. reflexivity.
 Qed.
 Lemma A0_form g l0 : mdict_ok g = true -> loc_meta g l0 = g -> g_attrs (gl_of g (pop5 g) l0) = A0_of g.
@@ -234,12 +234,12 @@ Definition lg (l : loc) : adict := match lgff l with Some d => d | None => [] en
 Lemma loc_meta_lg g l : loc_meta g l = aupdate g (lg l).
 Proof. unfold loc_meta, lg. destruct (lgff l); reflexivity. Qed.
 Lemma loc_plain_keys l : loc_plain l = true ->
-  aget k_seqid (lg l) = None /\ aget k_source (lg l) = None /\ aget k_type (lg l) = None /\ aget k_ID (lg l) = None.
+  aget k_seqid (lg l) = None /\ aget k_type (lg l) = None /\ aget k_ID (lg l) = None.
 Proof.
   unfold loc_plain, loc_no_cols, lg. destruct (lgff l) as [d|]; [|auto]. intros H. apply negb_true_iff in H.
-  assert (forall k, (forall kv : str * aval, str_eqb (fst kv) k = true -> (str_eqb (fst kv) k_seqid || str_eqb (fst kv) k_source || str_eqb (fst kv) k_type || str_eqb (fst kv) k_ID) = true) -> aget k d = None) as Q.
+  assert (forall k, (forall kv : str * aval, str_eqb (fst kv) k = true -> (str_eqb (fst kv) k_seqid || str_eqb (fst kv) k_type || str_eqb (fst kv) k_ID) = true) -> aget k d = None) as Q.
   { intros k Hk. apply aget_none_in_keys. destruct (in_keys k d) eqn:E; [|reflexivity]. apply existsb_exists in E. destruct E as [kv [E1 E2]].
-    assert (existsb (fun kv => str_eqb (fst kv) k_seqid || str_eqb (fst kv) k_source || str_eqb (fst kv) k_type || str_eqb (fst kv) k_ID) d = true) as T
+    assert (existsb (fun kv => str_eqb (fst kv) k_seqid || str_eqb (fst kv) k_type || str_eqb (fst kv) k_ID) d = true) as T
       by (apply existsb_exists; exists kv; split; [exact E1|apply Hk; exact E2]). congruence. }
   repeat split; apply Q; intros kv E; rewrite E; rewrite ?orb_true_r; reflexivity.
 Qed.
@@ -261,18 +261,33 @@ Proof. intros E1 E2 E3 E4 E5. unfold write_line, col_or_dot. rewrite E1, E2, E3,
 
 Lemma opt_aval_eqb_true o v : opt_aval_eqb o v = true -> o = Some v.
 Proof. destruct o as [x|]; cbn; [|discriminate]. intros H. apply aval_eqb_eq in H. congruence. Qed.
-Lemma aget_score_two A o1 o2 : aget k_score (filter (differs A) (opt_entry k_score o1 ++ opt_entry k_phase o2)) =
-  match o1 with Some v => if differs A (k_score, v) then Some v else None | None => None end.
+Definition three (o0 o1 o2 : option aval) : adict := opt_entry k_source o0 ++ opt_entry k_score o1 ++ opt_entry k_phase o2.
+Definition kept (A : adict) (k : str) (o : option aval) : option aval :=
+  match o with Some v => if differs A (k, v) then Some v else None | None => None end.
+Lemma aget_source_three A o0 o1 o2 : aget k_source (filter (differs A) (three o0 o1 o2)) = kept A k_source o0.
 Proof.
-  destruct o1 as [v|], o2 as [w|]; cbn [opt_entry app filter];
+  unfold three, kept. destruct o0 as [u|], o1 as [v|], o2 as [w|]; cbn [opt_entry app filter];
     repeat (match goal with |- context [differs A ?x] => destruct (differs A x) end); reflexivity.
 Qed.
-Lemma aget_phase_two A o1 o2 : aget k_phase (filter (differs A) (opt_entry k_score o1 ++ opt_entry k_phase o2)) =
-  match o2 with Some v => if differs A (k_phase, v) then Some v else None | None => None end.
+Lemma aget_score_three A o0 o1 o2 : aget k_score (filter (differs A) (three o0 o1 o2)) = kept A k_score o1.
 Proof.
-  destruct o1 as [v|], o2 as [w|]; cbn [opt_entry app filter];
+  unfold three, kept. destruct o0 as [u|], o1 as [v|], o2 as [w|]; cbn [opt_entry app filter];
     repeat (match goal with |- context [differs A ?x] => destruct (differs A x) end); reflexivity.
 Qed.
+Lemma aget_phase_three A o0 o1 o2 : aget k_phase (filter (differs A) (three o0 o1 o2)) = kept A k_phase o2.
+Proof.
+  unfold three, kept. destruct o0 as [u|], o1 as [v|], o2 as [w|]; cbn [opt_entry app filter];
+    repeat (match goal with |- context [differs A ?x] => destruct (differs A x) end); reflexivity.
+Qed.
+Lemma aget_other_three A k o0 o1 o2 : existsb (str_eqb k) [k_seqid; k_type] = true -> aget k (filter (differs A) (three o0 o1 o2)) = None.
+Proof.
+  intros Hk. cbn [existsb] in Hk. rewrite !orb_true_iff in Hk.
+  unfold three. destruct o0 as [u|], o1 as [v|], o2 as [w|]; cbn [opt_entry app filter];
+    repeat (match goal with |- context [differs A ?x] => destruct (differs A x) end);
+    destruct Hk as [H|[H|H]]; try discriminate H; apply str_eqb_eq in H; subst k; reflexivity.
+Qed.
+Lemma qcol_ext k a b : aget k a = aget k b -> qcol k a = qcol k b.
+Proof. intros E. unfold qcol. rewrite E. reflexivity. Qed.
 
 Section Loc.
   Variables (g : adict) (l : loc) (idv : aval).
@@ -284,9 +299,9 @@ Section Loc.
   Let b := pop5 g.
   Let M := loc_meta g l.
   Let F := keep b (pop5 M).
-  Let Ai := attrs_back (dline_i g idv l) (ocol k_seqid g) (ocol k_source g) (oscore M) (ophase M).
+  Let Ai := attrs_back (dline_i g idv l) (ocol k_seqid g) (ocol k_source M) (oscore M) (ophase M).
   Let D := diff_attrs Ai (A0_of g) [].
-  Let S := filter (differs (A0_of g)) (opt_entry k_score (aget k_score M) ++ opt_entry k_phase (aget k_phase M)).
+  Let S := filter (differs (A0_of g)) (three (aget k_source M) (aget k_score M) (aget k_phase M)).
 
   Lemma Ug : keys_unique g = true. Proof. unfold mdict_ok in Mg. apply andb_prop in Mg. tauto. Qed.
   Lemma Ub : keys_unique b = true. Proof. apply keys_unique_pop5, Ug. Qed.
@@ -301,7 +316,7 @@ Section Loc.
   Lemma F_noID : in_keys k_ID F = false.
   Proof.
     apply aget_none_in_keys. unfold F, keep. rewrite aget_filter by (apply keys_unique_pop5; pose proof Mm as Q; unfold mdict_ok in Q; apply andb_prop in Q; tauto).
-    rewrite (aget_pop5_other k_ID M eq_refl), aget_M. destruct (loc_plain_keys l Hp) as [_ [_ [_ N]]]. rewrite N, Hid.
+    rewrite (aget_pop5_other k_ID M eq_refl), aget_M. destruct (loc_plain_keys l Hp) as [_ [_ N]]. rewrite N, Hid.
     unfold differs. cbn [fst snd]. unfold b. rewrite (aget_pop5_other k_ID g eq_refl), Hid. cbn [opt_aval_eqb].
     rewrite (proj2 (aval_eqb_eq idv idv) eq_refl). reflexivity.
   Qed.
@@ -323,8 +338,7 @@ Section Loc.
     unfold differs in *. rewrite (aget_A0_noncol g _ N). exact H.
   Qed.
 
-  Lemma Ai_form : Ai = F ++ [(k_ID, idv)] ++ opt_entry k_seqid (aget k_seqid g) ++ opt_entry k_source (aget k_source g)
-                         ++ opt_entry k_score (aget k_score M) ++ opt_entry k_phase (aget k_phase M).
+  Lemma Ai_form : Ai = F ++ [(k_ID, idv)] ++ opt_entry k_seqid (aget k_seqid g) ++ three (aget k_source M) (aget k_score M) (aget k_phase M).
   Proof. unfold Ai. rewrite (back_form g M _ Mg Mm), dline_form, <- app_assoc. reflexivity. Qed.
   Lemma Ai_unique : keys_unique Ai = true.
   Proof.
@@ -342,13 +356,13 @@ Section Loc.
                       filter (differs (A0_of g)) (opt_entry k (aget k g)) = []) as E2.
     { intros k Hk. destruct (aget k g) as [v|] eqn:G; [|reflexivity]. cbn [opt_entry filter]. unfold differs. cbn [fst snd].
       rewrite (aget_A0_col g k Ug Hk), G. cbn [opt_aval_eqb]. rewrite (proj2 (aval_eqb_eq v v) eq_refl). reflexivity. }
-    rewrite E1, (E2 k_seqid eq_refl), (E2 k_source eq_refl). cbn [app]. unfold S. rewrite filter_app. reflexivity.
+    rewrite E1, (E2 k_seqid eq_refl). cbn [app]. reflexivity.
   Qed.
   Lemma S_col kv : In kv S -> is_col_key (fst kv) = true.
   Proof.
-    unfold S. intros H. apply filter_In in H. destruct H as [H _]. apply in_app_or in H.
-    destruct H as [H|H]; [destruct (aget k_score M)|destruct (aget k_phase M)]; cbn in H; try contradiction;
-      destruct H as [<-|[]]; reflexivity.
+    unfold S, three. intros H. apply filter_In in H. destruct H as [H _].
+    destruct (aget k_source M), (aget k_score M), (aget k_phase M); cbn in H;
+      repeat (destruct H as [<-|H]; [reflexivity|]); contradiction.
   Qed.
   Lemma noncol_D : noncol D = F.
   Proof.
@@ -374,11 +388,11 @@ Section Loc.
     fold b. unfold F at 1. rewrite popM. rewrite (keep_idem b _ Ub U_noncol). rewrite <- popM. reflexivity.
   Qed.
 
-  Lemma aget_S k : existsb (str_eqb k) [k_score; k_phase] = true ->
+  Lemma aget_S k : existsb (str_eqb k) [k_source; k_score; k_phase] = true ->
     match aget k D with Some v => Some v | None => aget k g end = aget k M.
   Proof.
     intros Hk.
-    assert (is_col_key k = true) as Ck by (cbn [existsb] in Hk; rewrite !orb_true_iff in Hk; destruct Hk as [H|[H|H]]; try discriminate H; apply str_eqb_eq in H; subst k; reflexivity).
+    assert (is_col_key k = true) as Ck by (cbn [existsb] in Hk; rewrite !orb_true_iff in Hk; destruct Hk as [H|[H|[H|H]]]; try discriminate H; apply str_eqb_eq in H; subst k; reflexivity).
     assert (aget k F = None) as NF.
     { apply aget_none_in_keys. destruct (in_keys k F) eqn:E; [|reflexivity]. apply existsb_exists in E. destruct E as [kv [E1 E2]].
       apply str_eqb_eq in E2. subst k. rewrite (F_nocol kv E1) in Ck. discriminate Ck. }
@@ -386,13 +400,14 @@ Section Loc.
       by (apply (aget_A0_col g k Ug); cbn [existsb] in *; rewrite !orb_true_iff in *; tauto).
     assert (aget k M = None -> aget k g = None) as MN by (rewrite aget_M; destruct (aget k (lg l)); [discriminate|auto]).
     rewrite D_form, aget_app, NF. unfold S.
-    cbn [existsb] in Hk. rewrite !orb_true_iff in Hk. destruct Hk as [H|[H|H]]; try discriminate H; apply str_eqb_eq in H; subst k.
-    - rewrite aget_score_two. destruct (aget k_score M) as [v|] eqn:GM; [|apply MN; reflexivity].
-      unfold differs. cbn [fst snd]. rewrite GA. destruct (opt_aval_eqb (aget k_score g) v) eqn:E; cbn [negb]; [|reflexivity].
-      apply opt_aval_eqb_true. exact E.
-    - rewrite aget_phase_two. destruct (aget k_phase M) as [v|] eqn:GM; [|apply MN; reflexivity].
-      unfold differs. cbn [fst snd]. rewrite GA. destruct (opt_aval_eqb (aget k_phase g) v) eqn:E; cbn [negb]; [|reflexivity].
-      apply opt_aval_eqb_true. exact E.
+    assert (match kept (A0_of g) k (aget k M) with Some v => Some v | None => aget k g end = aget k M) as Q.
+    { unfold kept. destruct (aget k M) as [v|] eqn:GM; [|apply MN; reflexivity].
+      unfold differs. cbn [fst snd]. rewrite GA. destruct (opt_aval_eqb (aget k g) v) eqn:E; cbn [negb]; [|reflexivity].
+      apply opt_aval_eqb_true. exact E. }
+    cbn [existsb] in Hk. rewrite !orb_true_iff in Hk. destruct Hk as [H|[H|[H|H]]]; try discriminate H; apply str_eqb_eq in H; subst k.
+    - rewrite aget_source_three. exact Q.
+    - rewrite aget_score_three. exact Q.
+    - rewrite aget_phase_three. exact Q.
   Qed.
 
   (* effective attributes of the location are kept, key by key *)
@@ -401,23 +416,18 @@ Section Loc.
     assert (aget k M = None -> aget k g = None) as MN by (rewrite aget_M; destruct (aget k (lg l)); [discriminate|auto]).
     destruct (is_col_key k) eqn:Ck.
     - unfold is_col_key, col_keys in Ck. cbn [existsb] in Ck. rewrite !orb_true_iff in Ck.
-      assert (forall k', existsb (str_eqb k') [k_seqid; k_source; k_type] = true -> aget k' (lg l) = None ->
+      assert (forall k', existsb (str_eqb k') [k_seqid; k_type] = true -> aget k' (lg l) = None ->
                 match aget k' D with Some v => Some v | None => aget k' g end = aget k' M) as Q.
       { intros k' Hk' NL. rewrite aget_M, NL. rewrite D_form, aget_app.
         assert (aget k' F = None) as NF.
         { apply aget_none_in_keys. destruct (in_keys k' F) eqn:E; [|reflexivity]. apply existsb_exists in E. destruct E as [kv [E1 E2]].
           apply str_eqb_eq in E2. subst k'. pose proof (F_nocol kv E1) as N. unfold is_col_key, col_keys in N. cbn [existsb] in *.
           rewrite !orb_false_iff in N. rewrite !orb_true_iff in Hk'. destruct N as [N1 [N2 [_ [_ [N5 _]]]]].
-          destruct Hk' as [H|[H|[H|H]]]; try discriminate H; apply str_eqb_eq in H; rewrite H in *; rewrite str_eqb_refl in *; discriminate. }
-        rewrite NF. assert (aget k' S = None) as NS.
-        { unfold S. cbn [existsb] in Hk'. rewrite !orb_true_iff in Hk'.
-          destruct (aget k_score M) as [x|], (aget k_phase M) as [y|]; cbn [opt_entry app filter];
-            repeat (match goal with |- context [differs ?A ?z] => destruct (differs A z) end);
-            destruct Hk' as [H|[H|[H|H]]]; try discriminate H; apply str_eqb_eq in H; subst k'; reflexivity. }
-        rewrite NS. reflexivity. }
-      destruct (loc_plain_keys l Hp) as [L1 [L2 [L3 _]]].
+          destruct Hk' as [H|[H|H]]; try discriminate H; apply str_eqb_eq in H; rewrite H in *; rewrite str_eqb_refl in *; discriminate. }
+        rewrite NF. unfold S. rewrite (aget_other_three _ _ _ _ _ Hk'). reflexivity. }
+      destruct (loc_plain_keys l Hp) as [L1 [L3 _]].
       destruct Ck as [H|[H|[H|[H|[H|H]]]]]; try discriminate H; apply str_eqb_eq in H; subst k.
-      + apply Q; [reflexivity|exact L1]. + apply Q; [reflexivity|exact L2].
+      + apply Q; [reflexivity|exact L1]. + apply aget_S. reflexivity.
       + apply aget_S. reflexivity. + apply aget_S. reflexivity.
       + apply Q; [reflexivity|exact L3].
     - rewrite D_form, aget_app.
@@ -431,12 +441,13 @@ Section Loc.
       + rewrite NS. apply MN. reflexivity.
   Qed.
 
-  Theorem line_same c1 c2 c3 :
-    write_line c1 c2 c3 l1 (dline_i (g1_of g) idv l1) (pop3 (loc_meta (g1_of g) l1)) =
-    write_line c1 c2 c3 l (dline_i g idv l) (pop3 (loc_meta g l)).
+  Theorem line_same c1 c3 :
+    write_line_s c1 c3 l1 (dline_i (g1_of g) idv l1) (loc_meta (g1_of g) l1) =
+    write_line_s c1 c3 l (dline_i g idv l) (loc_meta g l).
   Proof.
-    rewrite dline_same. apply write_line_ext; try reflexivity.
-    - rewrite !aget_pop3 by reflexivity. rewrite l1_meta, (aget_aupdate _ _ _ D_unique), (aget_g1 g _ Ug). apply aget_S. reflexivity.
-    - rewrite !aget_pop3 by reflexivity. rewrite l1_meta, (aget_aupdate _ _ _ D_unique), (aget_g1 g _ Ug). apply aget_S. reflexivity.
+    assert (forall k, existsb (str_eqb k) [k_source; k_score; k_phase] = true -> aget k (loc_meta (g1_of g) l1) = aget k (loc_meta g l)) as Q.
+    { intros k Hk. rewrite l1_meta, (aget_aupdate _ _ _ D_unique), (aget_g1 g _ Ug). apply aget_S. exact Hk. }
+    unfold write_line_s. rewrite (qcol_ext k_source _ _ (Q k_source eq_refl)). destruct (qcol k_source (loc_meta g l)); [|reflexivity].
+    rewrite dline_same. apply write_line_ext; try reflexivity; rewrite !aget_pop3 by reflexivity; apply Q; reflexivity.
   Qed.
 End Loc.
